@@ -201,7 +201,9 @@ func zzvFields(w *ref.CFWriter, offs []uint32, names []string) []zzvField {
 }
 
 func zzvDamageValues(w *ref.CFWriter, offs []uint32) []uint32 {
-	vals := []uint32{0, 1, 31, 32, w.HdrLen, w.HdrLen + 4, uint32(len(w.Data)) - 16, uint32(len(w.Data)) - 4, uint32(len(w.Data)), uint32(len(w.Data)) + 32, 0xffffffff, 0xff000001, 0x00ffffff}
+	vals := []uint32{0, 1, 31, 32, w.HdrLen, w.HdrLen + 4, uint32(len(w.Data)) - 16, uint32(len(w.Data)) - 4, uint32(len(w.Data)), uint32(len(w.Data)) + 32, 0xffffffff, 0xff000001, 0x00ffffff,
+		// values whose rounding to the record unit or to a page overflows 32 bits
+		0xffffffe0, 0xffffc000, 0xffffbfe0, 0xffffc020, 0x80000000, 0x7fffffe0}
 	for _, o := range offs {
 		vals = append(vals, o, o+1, o+4, o+32)
 		// name lengths that make the record's name end just before, at, and up to
